@@ -90,7 +90,7 @@ func totalOps(w WL) int {
 }
 
 func gen(r *rand.Rand) WL {
-	if r.IntN(12) == 0 {
+	if r.IntN(100) == 0 { // a bulk run costs several hundred small ones: about a quarter of the time budget
 		return genBulk(r)
 	}
 	w := WL{Impl: []string{"sieve", "nemap"}[r.IntN(2)]}
